@@ -714,6 +714,345 @@ def sec_python_stats(ck):
     ck.section("python_stats", note="estimate_mean re-computed with exact rationals")
 
 
+# ---------------------------------------------------------------------------- strided vectors / axis application / MFX statistics
+class StatMfx(ctypes.Structure):      # fff_onesample_stat_mfx (lib/fff/fff_onesample_stat.h)
+    _fields_ = [("flag", ctypes.c_int), ("base", ctypes.c_double), ("empirical", ctypes.c_int),
+                ("niter", ctypes.c_uint), ("constraint", ctypes.c_uint),
+                ("params", ctypes.c_void_p), ("compute_stat", ctypes.c_void_p)]
+
+
+class TsStatMfx(ctypes.Structure):    # fff_twosample_stat_mfx (lib/fff/fff_twosample_stat.h)
+    _fields_ = [("n1", ctypes.c_uint), ("n2", ctypes.c_uint), ("flag", ctypes.c_int), ("niter", ctypes.c_uint),
+                ("params", ctypes.c_void_p), ("compute_stat", ctypes.c_void_p)]
+
+
+OS_RFX = {"mean": 0, "median": 1, "student": 2, "laplace": 3, "tukey": 4, "sign": 5, "wilcoxon": 6, "elr": 7, "grubb": 8}
+OS_MFX = {"mean_mfx": 10, "median_mfx": 11, "student_mfx": 12, "sign_mfx": 15, "wilcoxon_mfx": 16, "elr_mfx": 17, "mean_gauss_mfx": 19}
+
+
+def load_mfx(L):
+    PV = ctypes.POINTER(FV)
+    L.fff_onesample_stat_mfx_new.argtypes = [ctypes.c_uint, ctypes.c_int, ctypes.c_double]
+    L.fff_onesample_stat_mfx_new.restype = ctypes.POINTER(StatMfx)
+    L.fff_onesample_stat_mfx_delete.argtypes = [ctypes.POINTER(StatMfx)]
+    L.fff_onesample_stat_mfx_delete.restype = None
+    L.fff_onesample_stat_mfx_eval.argtypes = [ctypes.POINTER(StatMfx), PV, PV]
+    L.fff_onesample_stat_mfx_eval.restype = ctypes.c_double
+    L.fff_onesample_stat_mfx_pdf_fit.argtypes = [PV, PV, ctypes.POINTER(StatMfx), PV, PV]
+    L.fff_onesample_stat_mfx_pdf_fit.restype = None
+    L.fff_onesample_stat_gmfx_pdf_fit.argtypes = [ctypes.POINTER(ctypes.c_double), ctypes.POINTER(ctypes.c_double), ctypes.POINTER(StatMfx), PV, PV]
+    L.fff_onesample_stat_gmfx_pdf_fit.restype = None
+    L.fff_twosample_stat_mfx_new.argtypes = [ctypes.c_uint, ctypes.c_uint, ctypes.c_int]
+    L.fff_twosample_stat_mfx_new.restype = ctypes.POINTER(TsStatMfx)
+    L.fff_twosample_stat_mfx_delete.argtypes = [ctypes.POINTER(TsStatMfx)]
+    L.fff_twosample_stat_mfx_delete.restype = None
+    L.fff_twosample_stat_mfx_eval.argtypes = [ctypes.POINTER(TsStatMfx), PV, PV]
+    L.fff_twosample_stat_mfx_eval.restype = ctypes.c_double
+
+
+def vview(a):
+    """fff_vector view of a 1-D float64 numpy array (any positive stride), like fffpy's iterator views."""
+    assert a.dtype == np.float64 and a.ndim == 1 and a.strides[0] > 0 and a.strides[0] % 8 == 0
+    v = FV(a.size, a.strides[0] // 8, a.ctypes.data_as(ctypes.POINTER(ctypes.c_double)), 0)
+    v._buf = a
+    return v
+
+
+def os_eval(L, flag, x, base=0.0):
+    st = L.fff_onesample_stat_new(x.size, flag, float(base))
+    t = L.fff_onesample_stat_eval(st, ctypes.byref(vview(x)))
+    L.fff_onesample_stat_delete(st)
+    return float(t)
+
+
+def osm_eval(L, flag, x, v, base=0.0, niter=5):
+    st = L.fff_onesample_stat_mfx_new(x.size, flag, float(base))
+    st.contents.niter = niter
+    t = L.fff_onesample_stat_mfx_eval(st, ctypes.byref(vview(x)), ctypes.byref(vview(v)))
+    L.fff_onesample_stat_mfx_delete(st)
+    return float(t)
+
+
+def osm_pdf_fit(L, flag, x, v, niter):
+    st = L.fff_onesample_stat_mfx_new(x.size, flag, 0.0)
+    st.contents.niter = niter
+    st.contents.constraint = 0
+    w = np.zeros(x.size)
+    z = np.zeros(x.size)
+    L.fff_onesample_stat_mfx_pdf_fit(ctypes.byref(vview(w)), ctypes.byref(vview(z)), st, ctypes.byref(vview(x)), ctypes.byref(vview(v)))
+    L.fff_onesample_stat_mfx_delete(st)
+    return w, z
+
+
+def same(a, b):
+    return a == b or (a != a and b != b)
+
+
+def strided_arrays(rng, n, gen):
+    """Arrays holding the subject axis (length n) in every position and memory layout:
+    C / Fortran order, 2-D and 3-D, and non-contiguous slices of a larger block.  Yields (array, axis, layout-name)."""
+    out = []
+    for nd in (2, 3):
+        for axis in range(nd):
+            for layout in ("C", "F", "sliced"):
+                shape = [int(rng.integers(2, 4)) for _ in range(nd)]
+                shape[axis] = n
+                if layout == "sliced":
+                    k = int(rng.integers(0, nd))
+                    big = list(shape)
+                    big[k] = 2 * shape[k] + 1
+                    A = gen(tuple(big))
+                    A = np.asarray(A, order="C" if rng.random() < 0.5 else "F")
+                    sl = [slice(None)] * nd
+                    sl[k] = slice(1, None, 2)
+                    A = A[tuple(sl)]
+                else:
+                    A = np.array(gen(tuple(shape)), order=layout)
+                out.append((A, axis, "%dD-%s-axis%d" % (nd, layout, axis)))
+    return out
+
+
+def fibres(A, axis):
+    other = [range(s) for i, s in enumerate(A.shape) if i != axis]
+    for idx in itertools.product(*other):
+        full = list(idx)
+        full.insert(axis, slice(None))
+        yield tuple(full)
+
+
+def sec_layout(ck, L):
+    """Every statistic is applied independently along the requested axis: the value for one fibre must be the value
+    of the same numbers held contiguously, whatever the strides of the data / variance / output vectors are.
+    The calling sequences are those of onesample.pyx (stat, stat_mfx) and twosample.pyx (stat, stat_mfx):
+    strided iterator views, a contiguous sign-flipped / permuted work vector."""
+    rng = ck.rng("layout")
+    ncase = 0
+
+    def gen_y(shape):
+        return rng.integers(-12, 13, size=shape).astype(float) / 4 + rng.integers(0, 2, size=shape) * 0.125
+
+    def gen_v(shape):
+        return rng.integers(1, 17, size=shape).astype(float) / 8
+
+    for n in ([4, 7] if not ck.thorough() else [3, 4, 7, 10]):
+        ys = strided_arrays(rng, n, gen_y)
+        for (Y, axis, lay) in ys:
+            V = np.empty(Y.shape)                                  # variance array with ITS OWN layout (independent of Y's)
+            Vsrc = [a for (a, ax, _) in strided_arrays(rng, n, gen_v) if ax == axis and a.ndim == Y.ndim]
+            Vfull = None
+            for cand in Vsrc:
+                if cand.shape == Y.shape:
+                    Vfull = cand
+                    break
+            if Vfull is None:                                      # same shape, other order than Y
+                Vfull = np.array(gen_v(Y.shape), order="F" if Y.flags["C_CONTIGUOUS"] else "C")
+            V = Vfull
+            for fi, idx in enumerate(fibres(Y, axis)):
+                if fi >= 3:
+                    break
+                y = Y[idx]
+                v = V[idx]
+                yc = np.ascontiguousarray(y)
+                vc = np.ascontiguousarray(v)
+                magic = int(rng.integers(0, 2 ** n))
+                sg = np.array([-1.0 if (magic >> i) & 1 else 1.0 for i in range(n)])
+                # onesample.stat: yp = permute_signs(y strided) contiguous; eval(yp)
+                yp = np.zeros(n)
+                L.fff_onesample_permute_signs(ctypes.byref(vview(yp)), ctypes.byref(vview(y)), float(magic))
+                ncase += 1
+                ck.count(("layout", lay, n, fi, magic), bucket="layout:permute_signs")
+                if not np.array_equal(yp, sg * yc):
+                    ck.fail("layout/permute_signs/strided-input",
+                            "fff_onesample_permute_signs on a strided view (%s, stride %d) gives %s, expected %s" % (lay, y.strides[0] // 8, yp.tolist(), (sg * yc).tolist()),
+                            {"layout": lay, "stride": y.strides[0] // 8, "x": yc.tolist(), "magic": magic, "out": yp.tolist()})
+                # strided OUTPUT vector as well
+                outbig = np.zeros(3 * n)
+                L.fff_onesample_permute_signs(ctypes.byref(vview(outbig[1::3][:n])), ctypes.byref(vview(y)), float(magic))
+                if not np.array_equal(outbig[1::3][:n], sg * yc) or outbig[0::3].any() or outbig[2::3].any():
+                    ck.fail("layout/permute_signs/strided-output", "fff_onesample_permute_signs into a stride-3 output writes %s" % outbig.tolist(),
+                            {"layout": lay, "x": yc.tolist(), "magic": magic, "out": outbig.tolist()})
+                for name, flag in OS_RFX.items():
+                    base = 0.0 if fi % 2 == 0 else 0.5
+                    ref = os_eval(L, flag, sg * yc, base)
+                    got_seq = os_eval(L, flag, yp, base)
+                    got_dir = os_eval(L, flag, y, base) if magic == 0 else os_eval(L, flag, Y[idx], base)
+                    ref_dir = os_eval(L, flag, yc, base)
+                    ck.count(("layout", "rfx", name, lay, n, fi), bucket="layout:onesample-rfx")
+                    if not same(got_seq, ref) or not same(got_dir, ref_dir):
+                        ck.fail("layout/onesample/%s/strided-data" % name,
+                                "one-sample '%s' on a strided fibre (%s, stride %d) = %r, on the same numbers held contiguously = %r"
+                                % (name, lay, y.strides[0] // 8, got_dir, ref_dir),
+                                {"stat": name, "layout": lay, "stride": y.strides[0] // 8, "x": yc.tolist(), "base": base, "strided": got_dir, "contiguous": ref_dir})
+                for name, flag in OS_MFX.items():
+                    niter = 1 + (fi + ncase) % 4
+                    base = 0.0
+                    ref = osm_eval(L, flag, np.ascontiguousarray(yp), vc, base, niter)
+                    combos = {"x-contiguous/var-strided": (yp, v),        # the .pyx calling sequence
+                              "x-strided/var-contiguous": (Y[idx] if magic == 0 else None, vc),
+                              "x-strided/var-strided": (Y[idx] if magic == 0 else None, v)}
+                    refs0 = osm_eval(L, flag, yc, vc, base, niter)
+                    for cname, (xa, va) in combos.items():
+                        if xa is None:
+                            xa, expect = y, refs0              # unflipped strided data
+                        else:
+                            expect = ref if xa is yp else refs0
+                        got = osm_eval(L, flag, xa, va, base, niter)
+                        ck.count(("layout", "mfx", name, cname, lay, n, fi), bucket="layout:onesample-mfx")
+                        if not same(got, expect):
+                            ck.fail("layout/onesample_mfx/%s" % cname,
+                                    "one-sample '%s' (niter=%d) with %s (%s; strides x=%d var=%d) = %r, on the same numbers held contiguously = %r"
+                                    % (name, niter, cname, lay, xa.strides[0] // 8, va.strides[0] // 8, got, expect),
+                                    {"stat": name, "niter": niter, "layout": lay, "x": np.ascontiguousarray(xa).tolist(), "var": vc.tolist(),
+                                     "x_stride": xa.strides[0] // 8, "var_stride": va.strides[0] // 8,
+                                     "var_memory_block": np.ascontiguousarray(V).ravel(order="K").tolist() if V.size < 200 else None,
+                                     "strided": got, "contiguous": expect})
+            # two-sample calling sequence: groups = the first n1 / last n2 entries of the fibre
+            n1 = n // 2
+            n2 = n - n1
+            for fi, idx in enumerate(fibres(Y, axis)):
+                if fi >= 2:
+                    break
+                y = Y[idx]
+                v = V[idx]
+                y1, y2, v1, v2 = y[:n1], y[n1:], v[:n1], v[n1:]
+                tot = math.comb(n, n1)
+                m = int(rng.integers(0, tot))
+                i, _, a, b = c_ts_perm(L, n1, n2, m)
+                ia = (ctypes.c_uint * (n1 + 16))(*a)
+                ib = (ctypes.c_uint * (n2 + 16))(*b)
+                res = {}
+                for tag, (q1, q2, w1, w2) in {"strided": (y1, y2, v1, v2),
+                                              "contiguous": tuple(np.ascontiguousarray(t) for t in (y1, y2, v1, v2))}.items():
+                    px = np.zeros(n)
+                    pv = np.zeros(n)
+                    L.fff_twosample_apply_permutation(ctypes.byref(vview(px)), ctypes.byref(vview(pv)), ctypes.byref(vview(q1)), ctypes.byref(vview(w1)),
+                                                      ctypes.byref(vview(q2)), ctypes.byref(vview(w2)), i, ia, ib)
+                    st = L.fff_twosample_stat_mfx_new(n1, n2, 12)
+                    st.contents.niter = 3
+                    tm = float(L.fff_twosample_stat_mfx_eval(st, ctypes.byref(vview(px)), ctypes.byref(vview(pv))))
+                    L.fff_twosample_stat_mfx_delete(st)
+                    res[tag] = (px.tolist(), pv.tolist(), c_ts(L, TS["student"], px[:n1], px[n1:]), c_ts(L, TS["wilcoxon"], px[:n1], px[n1:]), tm)
+                ck.count(("layout", "ts", lay, n, fi, m), bucket="layout:twosample")
+                if not all(same(p_, q_) if isinstance(p_, float) else p_ == q_ for p_, q_ in zip(res["strided"], res["contiguous"])):
+                    ck.fail("layout/twosample/strided-groups",
+                            "two-sample sequence (apply_permutation + student / wilcoxon / student_mfx) on strided group views (%s) differs from contiguous copies: %s vs %s"
+                            % (lay, res["strided"][2:], res["contiguous"][2:]),
+                            {"layout": lay, "n1": n1, "n2": n2, "magic": m, "x1": y1.tolist(), "x2": y2.tolist(), "v1": v1.tolist(), "v2": v2.tolist(),
+                             "strided": res["strided"], "contiguous": res["contiguous"]})
+    ck.section("layout", fibres=ncase, note="C/F/sliced 2-D and 3-D arrays, every axis; data and variance arrays with independent layouts; "
+               "onesample.pyx / twosample.pyx calling sequences through ctypes (the .pyx glue itself cannot be rebuilt)")
+
+
+def gmfx_em(x, var, niter, constraint, m_fixed):
+    """Gaussian MFX EM of the definition (exact rationals): m, v after niter steps."""
+    n = len(x)
+    if not constraint:
+        m = sum(x) / n
+    else:
+        m = m_fixed
+    v = sum((a - m) ** 2 for a in x) / n
+    for _ in range(niter):
+        mi = [(v * a + s * m) / (s + v) for a, s in zip(x, var)]
+        vi = [s * v / (s + v) for s in var]
+        if not constraint:
+            m = sum(mi) / n
+        v = sum(b + a * a for a, b in zip(mi, vi)) / n - m * m
+    return m, v
+
+
+def gmfx_nll(x, var, m, v):
+    return 0.5 * sum(math.log(float(s + v)) + float(a - m) ** 2 / float(s + v) for a, s in zip(x, var))
+
+
+def wmedian_sorted(z, w):
+    """fff_vector_wmedian_from_sorted_data re-stated (the library's interpolated weighted median)."""
+    sw = sum(w)
+    W = 0.0
+    xx = -math.inf
+    i = 0
+    while W <= 0.5:
+        xp, Wp = xx, W
+        xx = z[i]
+        ww = w[i] / sw
+        W += ww
+        i += 1
+    return xx if i == 1 else 0.5 * (xp + xx) + (0.5 - Wp) * (xx - xp) / ww
+
+
+def sec_mfx_stats(ck, L):
+    rng = ck.rng("mfxstats")
+    terms, metas = [], []
+    N = ck.n(60, 300)
+    for it in range(N):
+        n = int(rng.integers(3, 13))
+        niter = int(rng.integers(0, 6))
+        base = 0.0 if it % 3 else float(rng.integers(-3, 4)) / 2
+        x = rng.integers(-10, 11, size=n).astype(float) / 4 + (0.5 if it % 2 else -0.25)
+        x[0] += 1.75
+        var = rng.integers(0 if it % 4 == 0 else 1, 13, size=n).astype(float) / 8
+        fx = [frac(a) for a in x]
+        fv = [frac(a) for a in var]
+        exact = niter <= 2
+        X_, V_ = (fx, fv) if exact else ([float(a) for a in x], [float(a) for a in var])
+        B_ = frac(base) if exact else base
+        # Gaussian MFX: mean_gauss_mfx = EM mean - base; student_mfx = sign(mu-base) sqrt(2 (nll(base, v0) - nll(mu, v)))
+        mu, v = gmfx_em(X_, V_, niter, False, None)
+        got = osm_eval(L, 19, x, var, base, niter)
+        ck.count(("gmfx", "mean", it), bucket="mfx:mean_gauss_mfx")
+        if abs(got - float(mu - B_)) > 1e-10 * max(1.0, abs(got)):
+            ck.fail("onesample_mfx/mean_gauss_mfx-not-definition", "mean_gauss_mfx(niter=%d, base=%r) = %r, EM definition = %r" % (niter, base, got, float(mu - B_)),
+                    {"x": x.tolist(), "var": var.tolist(), "base": base, "niter": niter, "out": got})
+        if n <= 6 and niter <= 2:
+            terms.append("qclose (gmfx_mean %s %s %s - %s)%%Q %s" % (cnat(niter), cql(x.tolist()), cql(var.tolist()), cq(base), cq(got)))
+            metas.append(("gmfx", niter, x.tolist(), var.tolist(), base, got))
+        got = osm_eval(L, 12, x, var, base, niter)
+        ck.count(("gmfx", "student", it), bucket="mfx:student_mfx")
+        if mu - B_ == 0:
+            ref = 0.0
+        else:
+            m0, v0 = gmfx_em(X_, V_, niter, True, B_)
+            lr = max(0.0, -2.0 * (gmfx_nll(X_, V_, mu, v) - gmfx_nll(X_, V_, m0, v0)))
+            ref = math.copysign(math.sqrt(lr), float(mu - B_))
+        if abs(got - ref) > 1e-9 * max(1.0, abs(ref)):
+            ck.fail("onesample_mfx/student_mfx-not-likelihood-ratio/base!=0" if base != 0 else "onesample_mfx/student_mfx-not-likelihood-ratio",
+                    "student_mfx(niter=%d, base=%r) = %r; sign(mu-base) sqrt(2 (nll(H0: mean=base) - nll)) = %r" % (niter, base, got, ref),
+                    {"x": x.tolist(), "var": var.tolist(), "base": base, "niter": niter, "out": got, "expected": ref})
+        # antisymmetry of every MFX statistic under (x, base) -> (-x, -base)
+        for name, flag in OS_MFX.items():
+            t = osm_eval(L, flag, x, var, base, niter)
+            tf = osm_eval(L, flag, -x, var, -base, niter)
+            ck.count(("mfx-flip", name, it), bucket="mfx:antisymmetry")
+            if name == "median_mfx":
+                continue                                    # the library's interpolated weighted median is one-sided (first index with W > 1/2): not antisymmetric by definition
+            if not (abs(t + tf) <= 1e-9 * max(1.0, abs(t))):
+                ck.fail("onesample_mfx/%s-not-antisymmetric" % name, "%s(-x, var, -base) = %r but %s(x, var, base) = %r (niter=%d, base=%r)" % (name, tf, name, t, niter, base),
+                        {"stat": name, "x": x.tolist(), "var": var.tolist(), "base": base, "niter": niter, "flipped": tf, "plain": t})
+        # empirical MFX: statistics of the fitted mixture (w, z) returned by fff_onesample_stat_mfx_pdf_fit
+        w, z = osm_pdf_fit(L, 10, x, var, niter)
+        ck.count(("emfx", it), bucket="mfx:empirical")
+        if abs(w.sum() - 1) > 1e-9 or (w < -1e-15).any():
+            ck.fail("onesample_mfx/pdf_fit-weights-not-a-distribution", "pdf_fit weights %s" % w.tolist(), {"x": x.tolist(), "var": var.tolist(), "niter": niter, "w": w.tolist()})
+        defs = {"mean_mfx": float(np.dot(w, z) / w.sum() - base),
+                "sign_mfx": float(w[z > base].sum() - w[z < base].sum())}
+        order = np.argsort(np.abs(z - base), kind="stable")
+        if len(set(np.abs(z - base).tolist())) == n:         # rank order well defined
+            R = np.cumsum(w[order])
+            defs["wilcoxon_mfx"] = float(np.sum(np.sign(z[order] - base) * w[order] * R))
+        zo = np.argsort(z, kind="stable")
+        if len(set(z.tolist())) == n:
+            defs["median_mfx"] = wmedian_sorted(z[zo].tolist(), w[zo].tolist()) - base
+        for name, ref in defs.items():
+            got = osm_eval(L, OS_MFX[name], x, var, base, niter)
+            if abs(got - ref) > 1e-10 * max(1.0, abs(ref)):
+                sig = "onesample_mfx/%s-not-definition" % name
+                if name == "median_mfx" and base != 0 and abs(got - (ref + base)) <= 1e-10 * max(1.0, abs(ref)):
+                    sig = "onesample_mfx/median_mfx-ignores-base"
+                ck.fail(sig, "%s(niter=%d, base=%r) = %r; from the fitted mixture (w, z) of pdf_fit the definition gives %r" % (name, niter, base, got, ref),
+                        {"stat": name, "x": x.tolist(), "var": var.tolist(), "base": base, "niter": niter, "w": w.tolist(), "z": z.tolist(), "out": got, "expected": ref})
+    run_terms(ck, "gmfx", terms, metas, lambda t: "gmfx_mean %s %s %s" % (cnat(t[1]), cql(t[2]), cql(t[3])), hdr=HDR_MFX, shard=10)
+    ck.section("mfx_stats", cases=N, model_cases=len(terms))
+
+
 # ---------------------------------------------------------------------------- mixed effects (Python)
 HDR_MFX = ("From Coq Require Import List Bool ZArith NArith QArith Qabs.\n"
            "From NV.Lib Require Import Harness.\n"
@@ -1051,6 +1390,9 @@ def run(ck):
     sec_signs(ck, L)
     sec_twosample(ck, L)
     sec_stats(ck, L)
+    load_mfx(L)
+    sec_layout(ck, L)
+    sec_mfx_stats(ck, L)
     sec_pvalues(ck)
     sec_python_stats(ck)
     sec_varatio(ck)
